@@ -98,19 +98,6 @@ def cli_pair(sc, name, files, main):
 def selftest(chk, sc, schema_path, recs):
     """The binding bites: corrupt one recorded field of good records; IRJsonCheck must reject each."""
     import copy
-    tree = top = None
-    for _sz, line in sorted(recs, key=lambda x: x[0]):
-        r = json.loads(line)
-        if r.get("kind") == "tree" and tree is None and len(line) > 3000:
-            tree = r
-        if r.get("kind") == "top" and top is None and r.get("header1", "-") not in ("-",) and not r.get("exc"):
-            top = r
-        if tree is not None and top is not None:
-            break
-    if tree is None or top is None:
-        chk.extra["corruption_selftest"] = "skipped"
-        return
-
     def first_path(node, pred, path=()):
         """path to the first (field dict, name) satisfying pred in an abstract tree"""
         for n, v in node["fields"].items():
@@ -122,6 +109,20 @@ def selftest(chk, sc, schema_path, recs):
                 if r:
                     return r
         return None
+
+    tree = top = None
+    for _sz, line in sorted(recs, key=lambda x: x[0]):
+        r = json.loads(line)
+        if (r.get("kind") == "tree" and tree is None and len(line) > 3000
+                and first_path(r["t2"], lambda n, v: v["k"] == "bool") and first_path(r["t2"], lambda n, v: v["k"] == "loc")):
+            tree = r
+        if r.get("kind") == "top" and top is None and r.get("header1", "-") not in ("-",) and not r.get("exc"):
+            top = r
+        if tree is not None and top is not None:
+            break
+    if tree is None or top is None:
+        chk.extra["corruption_selftest"] = "skipped"
+        return
 
     cases = []
     c = copy.deepcopy(tree)
